@@ -442,6 +442,7 @@ func isolationCase(w *World, id string, i int, out *Out, stats *Stats) {
 	}
 	if !ok {
 		out.Violation("C06", id, fmt.Sprintf("unverified\tafter a round with neighbors [%s] the host (chain of %d blocks before) holds a chain of %d blocks that is neither its old chain nor the chain of an accepted honest neighbor", strings.Join(names, ", "), len(hostBlocks), len(after)))
+		out.Violation("C13", id, fmt.Sprintf("refused-offer-kept\tafter a round with neighbors [%s] the host (chain of %d blocks before) holds a chain of %d blocks that is neither its old chain nor the chain of an accepted honest neighbor", strings.Join(names, ", "), len(hostBlocks), len(after)))
 	}
 	if w.rec.Mon != nil {
 		w.rec.Mon.CheckChain(after, "after the isolation round")
